@@ -2,7 +2,7 @@
 
 from functools import wraps
 
-from .sinter import get_fb
+from .sinter import get_fb, _get_posonly_names
 
 
 def clastic_decorator(subdecorator):
@@ -20,7 +20,11 @@ def clastic_decorator(subdecorator):
         if fb.varargs or fb.varkw:
             raise TypeError('clastic does not support functions with *args'
                             ' or **kwargs: %r' % f)
+        posonly_names = _get_posonly_names(f)
         ret = subdecorator(f)
         ret._sinter_fb = fb
+        # the decorated result may hide the signature completely
+        # (e.g., an instance of a class-based decorator)
+        ret._sinter_posonly = posonly_names
         return ret
     return sinter_compatible_decorator
